@@ -173,11 +173,13 @@ func cachedPass(lp *libPipeline, l *Lineage, deps, mgmt []Row) (diff string, run
 		return maven.ProjectKey{GroupID: maven.String(p.Dir[0]), ArtifactID: maven.String(p.Dir[1]), Version: maven.String(p.Dir[2])}
 	}
 	for i := len(l.Poms) - 1; i >= 1; i-- {
-		lp.effectiveCached(key(&l.Poms[i]), cache)
-		runs++
+		lp.effectiveCached(key(&l.Poms[i]), cache, true) // as seen from another JDK and OS
+		lp.effectiveCached(key(&l.Poms[i]), cache, false)
+		runs += 2
 	}
-	proj, stage, err := lp.effectiveCached(key(&l.Poms[0]), cache)
-	runs++
+	lp.effectiveCached(key(&l.Poms[0]), cache, true)
+	proj, stage, err := lp.effectiveCached(key(&l.Poms[0]), cache, false)
+	runs += 2
 	if err != nil {
 		return fmt.Sprintf("error at %s: %v", stage, err), runs
 	}
